@@ -479,29 +479,46 @@ def glue_contextlib() -> None:
             manager: object = None
             method: str
             arg: Optional[str] = None
-            if hasattr(callback, "__self__") and not (
-                # A builtin function (whose __self__ is its module) or a
-                # bound method of a builtin object that was pushed as an
-                # exit callback is just a callable, unless it's an __exit__
-                isinstance(callback, types.BuiltinFunctionType)
-                and callback.__name__ not in ("__exit__", "__aexit__")
-            ):
+            # Is this the exit method of a context manager that was entered
+            # through, or pushed onto, the stack?
+            exit_names = ("__exit__", "__aexit__")
+            is_manager_exit = False
+            if isinstance(callback, types.MethodType):
+                # enter_context() and push(cm) register a bound method made
+                # of whatever the manager's type has as its __exit__; the
+                # function behind it need not be called that (an alias,
+                # a decorator that doesn't use functools.wraps, a mock)
+                try:
+                    type_exit = getattr(
+                        type(callback.__self__), exit_names[not is_sync], None
+                    )
+                except Exception:
+                    type_exit = None
+                is_manager_exit = (
+                    callback.__func__ is type_exit
+                    or getattr(callback.__func__, "__name__", None) in exit_names
+                )
+            elif hasattr(callback, "__self__"):
+                # Something else that is bound to an object: a method of a
+                # builtin object, a method-wrapper, a builtin function (whose
+                # __self__ is its module). Those are just callables, unless
+                # it's the __exit__ of a manager implemented in C. (3.7 used
+                # a wrapper function with a __self__ attribute for actual
+                # __exit__ invocations.)
+                is_manager_exit = isinstance(callback, types.FunctionType) or (
+                    getattr(callback, "__name__", None) in exit_names
+                )
+            if is_manager_exit:
+                # stack.enter_context(some_cm) or stack.push(some_cm)
                 manager = callback.__self__
-                if (
-                    # 3.7 used a wrapper function with a __self__ attribute
-                    # for actual __exit__ invocations. Later versions use a method.
-                    not isinstance(callback, types.MethodType)
-                    or getattr(callback.__func__, "__name__", None)
-                    in ("__exit__", "__aexit__")
-                ):
-                    # stack.enter_context(some_cm) or stack.push(some_cm)
-                    tag = "" if is_sync else "await "
-                    method = "enter_context" if is_sync else "enter_async_context"
-                    arg = repr(manager)
-                else:
-                    # stack.push(something.exit_ish_method)
-                    method = "push" if is_sync else "push_async_exit"
-                    arg = format_funcname(callback)
+                tag = "" if is_sync else "await "
+                method = "enter_context" if is_sync else "enter_async_context"
+                arg = repr(manager)
+            elif isinstance(callback, types.MethodType):
+                # stack.push(something.exit_ish_method)
+                manager = callback.__self__
+                method = "push" if is_sync else "push_async_exit"
+                arg = format_funcname(callback)
             elif (
                 hasattr(callback, "__wrapped__")
                 and getattr(callback, "__name__", None) == "_exit_wrapper"
